@@ -54,6 +54,9 @@ ASSUMPTIONS = [
     "no recipient accepted: the message report may be Z or D (never K): slack; the per-recipient letters are exact",
     "non-zero exit status of qmail-remote / empty or non-grammar output: Z or D accepted (never K), counted as slack; killed by a signal must give Z",
     "message bodies are CR-free and end with a newline (C06 owns the encoder); the payload is compared with a reference dot-stuffing encoder",
+    "destinations with several addresses (end-to-end part): the addresses are tried in the order of the DNS answer (relay host named in control/smtproutes, "
+    "all records of one A answer); an address without listener refuses the connection at once; a server never resets a connection in the instant it "
+    "accepts it (for the client that is a failed connection attempt or a dead connection depending on timing); connection time-outs are not generated",
     "server reply texts never contain the phrase 'Possible duplicate' (the report quotes the server's text, so a server could fake the flag in the "
     "human-readable part; Hypothesis found exactly that) - excluded by construction",
 ]
@@ -399,9 +402,13 @@ text_st = st.one_of(st.binary(max_size=30), st.binary(max_size=30),
                     ).map(lambda b: b.replace(b"\n", b" ").replace(b"Possible duplicate", b"possible duplicate"))
 
 
+def smtp_scenarios_n(n):
+    return smtp_scenarios(n)
+
+
 @st.composite
-def smtp_scenarios(draw):
-    n = draw(st.integers(1, 3))
+def smtp_scenarios(draw, n_fixed=None):
+    n = n_fixed if n_fixed is not None else draw(st.integers(1, 3))
     phases = []
     for p, t in enumerate(phase_types(n)):
         r = draw(st.integers(0, 23))
@@ -472,6 +479,7 @@ class Server:
                     conn, _ = self.lsock.accept()
                 except socket.timeout:
                     continue
+            res["accepted"] = True
             conn.settimeout(20)
             conn.setsockopt(socket.IPPROTO_TCP, socket.TCP_NODELAY, 1)
             rx = b""
@@ -515,6 +523,8 @@ class Server:
                     data = reply_bytes(ph["code"], [vlib.unjson(x) for x in ph["lines"]], ph["eol"].encode(), ph.get("nosep"))
                     if ph.get("lead"):
                         data = vlib.unjson(ph["lead"]) + data
+                    if ph.get("extra"):
+                        data += vlib.unjson(ph["extra"])      # further reply lines pushed in the same segment (nobody asked for them yet)
                     pos = 0
                     for c in ph.get("chunks", []):
                         if pos >= len(data):
@@ -622,6 +632,171 @@ class RemoteRunner:
             stats.slack += 1
         stats.case(scenario=sc, nontrivial=nt, classes=cl)
         return None
+
+
+# ------------------------------------------------------------------ end to end: a destination with several addresses
+
+def dns_name(name):
+    return b"".join(bytes([len(l)]) + l for l in name.strip(b".").split(b".")) + b"\0"
+
+
+def dns_response(name, qtype, rdatas):
+    """a well-formed DNS response: one question, len(rdatas) answers of that type (names as compression pointers to the question)"""
+    out = struct.pack(">HHHHHH", 0x1234, 0x8180, 1, len(rdatas), 0, 0) + dns_name(name) + struct.pack(">HH", qtype, 1)
+    for rd in rdatas:
+        out += b"\xc0\x0c" + struct.pack(">HHIH", qtype, 1, 300, len(rd)) + rd
+    return out
+
+
+class MultiRunner:
+    """qmail-remote routed (control/smtproutes) to a relay NAME that resolves to several loopback addresses, through the interposer's
+    file-backed resolver; each address has its own scripted server or no listener at all (connection refused)."""
+    NAME = b"mx.dest.test"
+
+    def __init__(self, tree, wid):
+        self.tree = tree
+        self.h = sandbox.Home(tree, os.path.join(vlib.scratch_root(), "c09-multi-%s" % wid))
+        self.h.control("me", HELO + b"\n")
+        self.dns = os.path.join(self.h.dir, "dns")
+        os.makedirs(self.dns, exist_ok=True)
+        import zlib
+        self.ips = ["127.0.%d.%d" % (20 + (zlib.crc32(str(wid).encode()) % 200), k) for k in (2, 3, 4)]
+        self.port = None
+
+    def bind_all(self, listen):
+        """one port that is free on all addresses; listeners only where listen[i]"""
+        for attempt in range(50):
+            socks = []
+            try:
+                s0 = socket.socket(socket.AF_INET, socket.SOCK_STREAM)
+                s0.bind((self.ips[0], 0))
+                port = s0.getsockname()[1]
+                s0.close()
+                for ip, l in zip(self.ips, listen):
+                    s = socket.socket(socket.AF_INET, socket.SOCK_STREAM)
+                    s.setsockopt(socket.SOL_SOCKET, socket.SO_REUSEADDR, 1)
+                    s.bind((ip, port))
+                    if l:
+                        s.listen(8)
+                        socks.append(s)
+                    else:
+                        s.close()          # nobody listens here: connection refused
+                        socks.append(None)
+                return port, socks
+            except OSError:
+                for s in socks:
+                    if s is not None:
+                        s.close()
+        raise vlib.HarnessError("no common free port on %r" % self.ips)
+
+    def run_scenario(self, sc, stats):
+        h = self.h
+        hosts = sc["hosts"]
+        n = len(hosts)
+        port, socks = self.bind_all([hh["listen"] for hh in hosts])
+        try:
+            h.control("smtproutes", b":" + self.NAME + b":%d\n" % port)
+            h.control("timeoutremote", "20\n")
+            h.control("timeoutconnect", "5\n")
+            with open(os.path.join(self.dns, "1.%s" % self.NAME.decode()), "wb") as f:
+                f.write(dns_response(self.NAME, 1, [socket.inet_aton(ip) for ip in self.ips[:n]]))
+            with open(os.path.join(h.queue, "lock", "tcpto"), "wb") as f:
+                f.write(b"\0" * 1024)
+            results, threads = [], []
+            for i, hh in enumerate(hosts):
+                res = {}
+                results.append(res)
+                if socks[i] is not None:
+                    th = threading.Thread(target=Server(socks[i]).run, args=(dict(sc, phases=hh["phases"]), res), daemon=True)
+                    th.start()
+                    threads.append(th)
+            argv = [self.tree.path("qmail-remote"), "dst.example", vlib.unjson(sc["sender"]).decode("latin-1")] + [r.decode() for r in RECIPS[:sc["n"]]]
+            env = h.env(role="remote", uid=h.uids["r"], trace=False, VSHIM_DNS=self.dns)
+            rc, out, err = sandbox.run_proc(argv, env, stdin=vlib.unjson(sc["body"]), timeout=40)
+            for res in results:
+                res["stop"] = True
+            for th in threads:
+                th.join(25)
+            if rc is None or any(th.is_alive() for th in threads) or any(r_.get("err") for r_ in results):
+                stats.inconclusive += 1
+                return None
+        finally:
+            for s in socks:
+                if s is not None:
+                    s.close()
+        first = next((i for i, hh in enumerate(hosts) if hh["listen"]), None)
+        cls = ["multi:hosts_%d" % n, "multi:first_listening_%s" % first]
+        # connections: exactly the first listening address is contacted - the conversation with the first server that accepts the
+        # connection decides the delivery ("does not return"); addresses behind it are never tried
+        for i, res in enumerate(results):
+            if i != first and res.get("accepted"):
+                return "multi: address #%d (%s) was contacted although address #%s had accepted the connection; commands it received: %r" % (
+                    i, self.ips[i], first, res.get("cmds", [])[:6])
+        if first is None:
+            po = parse_remote_output(out)
+            stats.case(scenario=sc, nontrivial=True, classes=cls + ["multi:nobody_listens"])
+            if rc != 0:
+                return "multi: qmail-remote exited %s" % rc
+            if isinstance(po, str):
+                return "multi: " + po
+            if po[1] != "Z" or po[0] or po[2]:
+                return "multi: no address accepts connections: expected one temporary failure report, got [%s]+%s%s" % (po[0], po[1], " (Possible duplicate!)" if po[2] else "")
+            return None
+        if not results[first].get("accepted"):
+            return "multi: address #%d listens but was never contacted; output %r" % (first, out[:120])
+        one = dict(sc, phases=hosts[first]["phases"])
+        v, e = judge_remote(one, rc, out, results[first]["cmds"])
+        if v:
+            return "multi (address #%d decides): %s" % (first, v)
+        last = e["last"]
+        nt = first > 0 or any(ph["k"] != "reply" or ph.get("lead") or not (200 <= ph["code"] <= 399) for ph in one["phases"][:last + 1])
+        if e["slack"]:
+            stats.slack += 1
+        stats.case(scenario=sc, nontrivial=nt, classes=cls + ["multi:verdict_" + e["obs"][1]] + (["multi:refused_then_next_address"] if first > 0 else []) +
+                   (["multi:bad_greeting_with_more_addresses_behind"] if n > first + 1 and one["phases"][0]["k"] == "reply" and one["phases"][0]["code"] != 220 else []))
+        return None
+
+
+@st.composite
+def multi_scenarios(draw):
+    base = draw(smtp_scenarios())
+    n = draw(st.integers(2, 3))
+    hosts = [{"listen": draw(st.integers(0, 2)) != 0, "phases": base["phases"] if i == 0 else draw(smtp_scenarios(base["n"]))["phases"]} for i in range(n)]
+    if draw(st.integers(0, 2)) == 0:
+        # the first listening server greets badly and pushes more reply lines in the same segment
+        for hh in hosts:
+            if hh["listen"]:
+                code = draw(st.sampled_from([421, 451, 554, 500]))
+                hh["phases"] = [{"k": "reply", "code": code, "lines": [{"b": "busy"}], "eol": "\r\n", "chunks": [], "nosep": False,
+                                 "extra": vlib.jsonable(b"220 second.greeting ESMTP\r\n250 hello\r\n250 sender ok\r\n")}] + hh["phases"][1:]
+                break
+    for hh in hosts:
+        # a server that resets the connection the instant it accepted it is indistinguishable, for the client, from a failed connection
+        # attempt (the reset can overtake the end of connect()): whether that address "accepted" is timing - outside the domain, by construction
+        if hh["phases"] and hh["phases"][0]["k"] != "reply" and hh["phases"][0].get("rst"):
+            hh["phases"] = [dict(hh["phases"][0], rst=False)] + hh["phases"][1:]
+    return {"kind": "tcp2", "n": base["n"], "sender": base["sender"], "body": base["body"], "hosts": hosts}
+
+
+def multi_fixed():
+    def rep(code, lines=1, **kw):
+        return dict({"k": "reply", "code": code, "lines": [{"b": "t%d" % i} for i in range(lines)], "eol": "\r\n", "chunks": [], "nosep": False}, **kw)
+    ok = [rep(220), rep(250), rep(250), rep(250), rep(354), rep(250)]
+    norcpt = [rep(220), rep(250), rep(250), rep(450), rep(354), rep(250)]
+    extra = vlib.jsonable(b"220 second.greeting ESMTP\r\n250 hello\r\n250 sender ok\r\n")
+    hostile = b"Subject: x\n\nMAIL FROM:<ceo@corp.example>\nRCPT TO:<accounting@corp.example>\nDATA\nurgent payment\n.\nQUIT\n"
+    base = {"kind": "tcp2", "n": 1, "sender": {"b": "sender@src.example"}, "body": vlib.jsonable(hostile)}
+    L = lambda ph: {"listen": True, "phases": ph}
+    R = {"listen": False, "phases": ok}
+    out = [dict(base, hosts=[R, L(ok)]), dict(base, hosts=[R, R, L(ok)]), dict(base, hosts=[R, R]), dict(base, hosts=[L(ok), L(ok)]),
+           dict(base, hosts=[R, L([rep(554)] + ok[1:]), L(ok)])]
+    for code in (421, 451, 500, 554):
+        out.append(dict(base, hosts=[L([rep(code)] + ok[1:]), L(ok)]))
+        out.append(dict(base, hosts=[L([rep(code, extra=extra)] + ok[1:]), L(norcpt)]))
+        out.append(dict(base, hosts=[R, L([rep(code, extra=extra)] + ok[1:]), L(norcpt)]))
+    out.append(dict(base, hosts=[L(ok[:1] + [rep(450)] + ok[2:]), L(ok)]))
+    out.append(dict(base, hosts=[L([{"k": "close", "rst": False, "sent": 0}]), L(ok)]))
+    return out
 
 
 # ------------------------------------------------------------------ end to end: real qmail-rspawn + stand-in
@@ -752,9 +927,10 @@ def e2e_worker(job):
     stats = vlib.Stats()
     rr = RemoteRunner(tree, wid)
     rs = RspawnRunner(tree, wid)
+    rm = MultiRunner(tree, wid)
 
     def dispatch(sc, st_):
-        return (rr if sc.get("kind") == "tcp" else rs).run_scenario(sc, st_)
+        return {"tcp": rr, "tcp2": rm}.get(sc.get("kind"), rs).run_scenario(sc, st_)
     for sc in fixed:
         v = dispatch(sc, stats)
         if v:
@@ -763,6 +939,8 @@ def e2e_worker(job):
         vlib.hyp_search(smtp_scenarios(), rr.run_scenario, n_tcp, seed, stats)
     if n_rs and not stats.violations:
         vlib.hyp_search(rspawn_scenarios(), rs.run_scenario, n_rs, seed ^ 0x5a5a, stats)
+    if n_tcp and not stats.violations:
+        vlib.hyp_search(multi_scenarios(), rm.run_scenario, max(4, n_tcp // 3), seed ^ 0x3c3c, stats)
     confirm(dispatch, stats)
     rr.lsock.close()
     return stats
@@ -793,6 +971,7 @@ def fixed_scenarios():
         out.append({"kind": "rspawn", "out": vlib.jsonable(o), "status": s, "delnums": [0, 5]})
     for s in (["kill", 11], ["exit", 111], ["exit", 100], ["exit", 1], ["exit", 0]):
         out.append({"kind": "rspawn", "out": vlib.jsonable(b"r\0Kaccepted\0"), "status": s, "delnums": [3], "linger": 150})
+    out += multi_fixed()
     return out
 
 
@@ -899,7 +1078,7 @@ def replay(ctx, path):
         sc = json.load(open(path))
         sc = sc.get("scenario", sc)
         tree.make("qmail-remote", "qmail-rspawn")
-        runner = RemoteRunner(tree, "replay") if sc.get("kind") == "tcp" else RspawnRunner(tree, "replay")
+        runner = {"tcp": RemoteRunner, "tcp2": MultiRunner}.get(sc.get("kind"), RspawnRunner)(tree, "replay")
         v = runner.run_scenario(sc, ctx.stats)
         return [v] if v else []
     binp = build(tree)
